@@ -163,9 +163,11 @@ func c05Config(cols []c05Col, width int, sepFill ...string) string {
 		}
 	}
 	fmt.Fprintf(&b, "FillCharacter: %q\nSeperatorCharacter: %q\nNaValue: n.a.\nDataColumns:\n", fill, sep)
-	for _, cdef := range cols {
+	for ci, cdef := range cols {
 		parts := strings.Split(cdef.name, ":")
-		fmt.Fprintf(&b, "- Format: '%s'\n  DataAlignment: right\n  Width: %d\n  VariableName: %s\n", cdef.format, width, parts[0])
+		// the four alignment values rotate over the columns (the date column stays right-aligned)
+		align := []string{"right", "left", "center", "none"}[ci%4]
+		fmt.Fprintf(&b, "- Format: '%s'\n  DataAlignment: %s\n  Width: %d\n  VariableName: %s\n", cdef.format, align, width, parts[0])
 		for i, ix := range parts[1:] {
 			if ix != "0" {
 				fmt.Fprintf(&b, "  VarIndex%d: %s\n", i+1, ix)
